@@ -380,7 +380,7 @@ def src_carriers(tier, seed):
     return scenarios, st
 
 
-def stdin_input(cls):
+def stdin_input(cls, lines=None):
     if cls == "unformatted":
         return "local   x   =   1\nlocal t = {  1,2 }\ndo\nf()\nend\n"      # the block makes the indent settings visible
     if cls == "formatted":
@@ -394,7 +394,7 @@ def stdin_input(cls):
     if cls == "nonl":
         return "local   x = 1"
     if cls == "large":
-        return "".join("local   v%d = { %d,%d }\n" % (i, i, i + 1) for i in range(LARGE_LINES[0]))
+        return "".join("local   v%d = { %d,%d }\n" % (i, i, i + 1) for i in range(lines or LARGE_LINES[0]))
     raise ValueError(cls)
 
 
@@ -410,7 +410,9 @@ def src_stdin(tier, seed):
     lib = _expected_formats(reqs)
     for n, r in enumerate(raw):
         c = r["c"]
-        text = stdin_input(c["input"])
+        # the diff of --check is quadratic in the number of changed lines (12 s for 10 000 lines with the unoptimised
+        # hooked binary): the multi-megabyte input is used in write mode, a 10 000-line one in the check modes
+        text = stdin_input(c["input"], lines=min(LARGE_LINES[0], 10000) if c["mode"] != "write" else None)
         tree = [{"path": "keep/other.lua", "text": "local   untouched = 1\n", "class": "raw"},
                 {"path": ".styluaignore", "text": "build/\nignored.lua\n", "class": "raw"},
                 {"path": "conf/stylua.toml", "text": 'indent_type = "Spaces"\nindent_width = 3\n', "class": "raw"},
@@ -435,7 +437,7 @@ def src_stdin(tier, seed):
         argv.append("-")
         exp = {"input": text, "fmt": lib.get("fmt:" + c["input"]), "fmt_cfgdir": lib.get("fmt_cfgdir:" + c["input"]),
                "fmt_ecdir": lib.get("fmt_ecdir:" + c["input"])}
-        scenarios.append({"id": "si%d" % n, "tree": tree, "argv": argv, "stdin": {"text": text}, "stdout_expect": exp, "timeout": 60,
+        scenarios.append({"id": "si%d" % n, "tree": tree, "argv": argv, "stdin": {"text": text}, "stdout_expect": exp, "timeout": 60 if c["input"] != "large" else 600,
                           "meta": {"kind": "stdin", "c": c, "expect": r["expect"],
                                    "sig": "input=%s;mode=%s;path=%s;extra=%s" % (c["input"], c["mode"], pc, c["extra"])}})
     return scenarios, st
